@@ -1400,7 +1400,7 @@ pub fn run() {
                   run.violation(
                     &nkey,
                     &format!("`{}` with ({}) gives {} but the positional invocation gives {}", ntext, shown_args, show_value(&v), show_value(&observed)),
-                    json!({"engine":"c08","text":ntext,"positional":text,"arguments":shown_args}),
+                    json!({"engine":"c08","text":format!("{}({})", spec.name, perm.iter().map(|i| format!("{}: {}", p[*i], args[*i].show())).collect::<Vec<_>>().join(", ")),"bindings":[],"positional":format!("{}({})", spec.name, shown_args),"expected":crate::replay::value_to_rval(&observed).show()}),
                   );
                 }
               }
